@@ -64,6 +64,11 @@ def specs(tier: str, seed: int) -> list[dict]:
     add("Isobaric", "A3", [["c", "C_iso"], ["d", "D_ball"]], (), late=["strain"])
     add("Isotension", "T3", [["c", "C_aniso"]], (), late=["strain", "shift"])
     add("GrandCanonical", "A2", [["e", "E_trans"]], ("tags",), late=["shift"])
+    # the same simulation object run twice, atoms edited by the user in between
+    add("Canonical", "A3", [["d", "D_ball"]], ("fix:1",), edit_between_runs=["shift"])
+    add("Isobaric", "A3", [["c", "C_iso"], ["d", "D_ball"]], (), edit_between_runs=["strain"])
+    add("GrandCanonical", "A2", [["e", "E_trans"], ["d", "D_ball"]], ("tags",), edit_between_runs=["shift"])
+    add("HamiltonianCanonical", "A3", [["h", "H1"]], (), calc="harmonic", edit_between_runs=["momenta", "shift"])
     # collective constraint + vetoed attempts
     add("Canonical", "A3", [["d", "D_ball"]], ("fixcom",), check=True)
     add("Canonical", "M", [["d", "D_rot"], ["t", "D_trans"]], ("fixcom", "tags"), check=True)
@@ -87,6 +92,16 @@ def specs(tier: str, seed: int) -> list[dict]:
         if s["depth"] is None:
             s["depth"] = 2
     return out
+
+
+def _between(spec):
+    """The user edits the atoms between two run() calls of the same simulation object."""
+    ed = spec.get("edit_between_runs")
+    if not ed:
+        return None
+    from qv.systems import decorate
+
+    return (1, lambda sysm: decorate(sysm.atoms, ed))
 
 
 def _late(spec):
@@ -138,7 +153,7 @@ def task(spec: dict) -> dict:
     only = spec.get("only")
 
     def run(ch: Chooser):
-        sysm, trials = execute(spec, ch, depth, policy, setup=_late(spec))
+        sysm, trials = execute(spec, ch, depth, policy, setup=_late(spec), between_runs=_between(spec))
         sysm.close()
         return trials
 
@@ -243,7 +258,9 @@ def task(spec: dict) -> dict:
         return res
 
     fut = 0
-    if only is None:
+    # with user edits between runs only the restoration of the atoms is judged: the package does
+    # not promise to re-validate cached energies after such an edit
+    if only is None and not spec.get("edit_between_runs"):
         for path, node in tree.items():
             if not node["fail"]:
                 continue
